@@ -555,6 +555,31 @@ def require_all(cx, site, key, text, clauses, kill=True, detail=None):
     return not failed
 
 
+def path_variants(cx, site, exprs, limit=4000):
+    """The values a tuple of expressions takes along the acyclic paths to `site`: every `phi` over a local with several
+    definitions is replaced by the definition last passed on the path. Correlated choices made in separate places
+    (`let ty = k.kind(); let term = match k {..}`) come out as the pairs that can actually occur. None if the paths
+    cannot be enumerated."""
+    g = cx.pg(site.fn)
+    try:
+        envs = g.site_values(site.at, lambda env: dict(env or {}), limit)
+    except OverflowError:
+        return None
+
+    def subst(e, env, depth=0):
+        if not isinstance(e, tuple) or depth > 40:
+            return e
+        if e and e[0] == "phi" and e[1] in env:
+            return env[e[1]]
+        return tuple(subst(x, env, depth + 1) if isinstance(x, tuple) else x for x in e)
+    out = []
+    for _, env in envs:
+        v = tuple(subst(e, env) for e in exprs)
+        if v not in out:
+            out.append(v)
+    return out
+
+
 def callers_of(cx, fn):
     from .an import strip_generics
     return [s for s in cx.prog.calls_in.get(strip_generics(fn.key), []) if s.kind == "call"]
